@@ -66,6 +66,9 @@ type Result struct {
 	WallS      float64
 }
 
+// BeforeExec functions run before every execution (reset of package-level state of the code under test).
+var BeforeExec []func()
+
 // LastOps is the environment-operation log of the most recent execution (when logging was on).
 var LastOps []string
 
@@ -73,6 +76,9 @@ var LastOps []string
 func RunOnce(sc *Scenario, prefix []int, logOps bool) (*sched.Exec, *Instance, *Violation) {
 	vsync.ResetChannels()
 	vfsnotify.ResetLog()
+	for _, f := range BeforeExec {
+		f()
+	}
 	in := sc.New()
 	if logOps {
 		vfs.W.LogOps = true
